@@ -28,8 +28,10 @@ def doc_key(a):
     return (0 if s == 'C' else 1 if s == 'H' else 2, s, a.isotope if isisotope(a) else 0)
 
 
-def _atoms(names):
+def _atoms(names, private=False):
     import periodictable as pt
+    if private:
+        pt = cm.private_table('c19', neutron=False)
     P = dict(C=pt.C, H=pt.H, D=pt.D, T=pt.T, O=pt.O, Fe=pt.Fe, Fe56=pt.Fe[56], Fe54=pt.Fe[54], Fe2=pt.Fe.ion[2], Fe3=pt.Fe.ion[3],
              Fe56_2=pt.Fe[56].ion[2], Fe56_3=pt.Fe[56].ion[3], C13=pt.C[13], H1=pt.H[1], Cl=pt.Cl, Ca=pt.Ca, Co=pt.Co, Hp=pt.H.ion[1],
              Hm=pt.H.ion[-1], Dp=pt.D.ion[1], O2m=pt.O.ion[-2], He=pt.He, B=pt.B, Br=pt.Br,
@@ -37,10 +39,15 @@ def _atoms(names):
     return [P[n] for n in names]
 
 
-def _canonical_case(names):
+def _canonical_case(names, private=False):
     def h(E):
         from periodictable import formulas
-        atoms = _atoms(names)
+        atoms = _atoms(names, private)
+        if private:
+            # on a private table the Hill form is made of that table's own atoms
+            hp = formulas.formula([(1, a) for a in atoms]).hill
+            E.fact('hill.atoms_of_the_same_table', all(any(x is a for a in atoms) for x in hp.atoms) and len(hp.atoms) == len(set(map(id, atoms))),
+                   note=repr([getattr(cm.base_of(x), 'table', None) for x in hp.atoms])[:100])
         counts = [E.real('c%d' % i, lo=0, lo_open=True, hi=1000, sample=2.5 + 1.25 * i) for i in range(len(atoms))]
         pairs = list(zip(counts, atoms))
         ref = formulas.formula(pairs)
@@ -101,6 +108,16 @@ def _parsed_hill_case(text):
         E.fact('hill_equals_parsed[%s]' % text, f == f.hill)
         E.fact('str_same[%s]' % text, str(f.hill) == str(f))
     return h
+
+
+def _parsed_private_case(E):
+    """Hill-ordered strings parsed on a private table equal their own Hill form, made of that table's atoms"""
+    from periodictable import formulas
+    T = cm.private_table('c19', neutron=False)
+    for text in ('CH4', 'C2H6O', 'H2O', 'Fe2O3', 'C[13]H4', 'HNaO', 'Fe[56]{2+}O{2-}'):
+        f = formulas.formula(text, table=T)
+        E.fact('parsed_equals_hill_private[%s]' % text, f.hill == f and f == f.hill, note='%r vs %r' % (f.hill.structure, f.structure))
+        E.fact('hill_atoms_of_the_same_table[%s]' % text, all(any(x is a for a in f.atoms) for x in f.hill.atoms))
 
 
 CH_MOD = '''
@@ -179,6 +196,9 @@ def cases(tier):
                  ('Cl', 'C', 'Co', 'Ca'), ('C13', 'H1', 'T', 'D')]
     for s in sets:
         out.append(Case('canonical[%s]' % ','.join(s), _canonical_case(s), max_paths=64 if not th else 256, timeout_ms=20000))
+    out.append(Case('canonical[O,H,C|private table]', _canonical_case(('O', 'H', 'C'), True), max_paths=64, timeout_ms=20000))
+    out.append(Case('canonical[Fe56_3,Fe56_2,Fe2|private table]', _canonical_case(('Fe56_3', 'Fe56_2', 'Fe2'), True), max_paths=64, timeout_ms=20000))
+    out.append(Case('parsed_hill_private_table', _parsed_private_case, max_paths=4))
     texts = ['Be[9]Be[10]2O', 'C[9]C[12]H4', 'CH4', 'C2H6O', 'CCaO3', 'H2O', 'C6H12O6', 'CHCl3', 'Fe2O3', 'C[13]H4', 'CD4', 'HNaO', 'ClNa', 'HBr']
     for t in texts:
         out.append(Case('parsed_hill[%s]' % t, _parsed_hill_case(t), max_paths=4))
